@@ -139,6 +139,49 @@ def run(chk, replay=None):
             chk.violation({"class": "prune-verdict", "what": "env %s: unpruned %s, pruned %s || %s" % (env, u, pr, text[:160])},
                           {"cmd": "core", "line": ln, "program": text, "witness": corelib.bindings_sx(vals), "environment": env, "implementation": x[:600],
                            "broken": "under this environment satisfy_with_env(Some(env)) is not Ok-and-succeeding exactly when the unpruned program succeeds"})
+    # ---- one CompiledProgram object, the same witness, several environments one after the other: every call answers for ITS environment
+    #      (a result remembered from an earlier call of the same object must not leak into a later one)
+    sl = []
+    for text, wts in eprogs:
+        for _ in range(3 if quick else 12):
+            vals = []
+            order = list(envs)
+            rng.shuffle(order)
+            order = order[:rng.choice([2, 3, 6])]
+            for n, t in wts:
+                if t[0] == "U":
+                    vals.append((n, ("u", t[1], rng.choice([0, 5, 49, 50, 999, 1000, order[0][0], order[-1][0], order[0][1] & 0xffff, order[-1][1] & 0xffff]) % (1 << (1 << t[1])))))
+                else:
+                    vals.append((n, gen.gen_val(rng, t)))
+            seq = "(runpe %s () %s 0 (%s))" % (quote(text), corelib.bindings_sx(vals), " ".join("(%d %d %d)" % e for e in order))
+            singles = ["(runpe %s () %s 0 (%d %d %d))" % (quote(text), corelib.bindings_sx(vals), e[0], e[1], e[2]) for e in order]
+            sl.append((text, vals, order, seq, singles))
+    flat = []
+    for e in sl:
+        flat.append(e[3])
+        flat.extend(e[4])
+    res = impl("core", flat)
+    pos = 0
+
+    def verdict(x):
+        m = re.match(r"\(unpruned \((\w+)[^)]*\)\) \(pruned \((\w+)", x)
+        return (m.group(1), m.group(2), "mexec=ok" in x, "twins=yes" in x) if m else ("?", x[:60], False, False)
+
+    for text, vals, order, seq, singles in sl:
+        got = res[pos].split(" ; ")
+        fresh = res[pos + 1: pos + 1 + len(singles)]
+        pos += 1 + len(singles)
+        chk.case(seq, sample={"program": text[:100], "envs": order, "outcome": res[pos - 1 - len(singles)][:90]})
+        chk.count("envseq.len%d" % len(order))
+        if len(got) != len(order):
+            chk.violation({"class": "prune-panic", "what": res[pos - 1 - len(singles)][:200]}, {"cmd": "core", "line": seq, "implementation": res[pos - 1 - len(singles)][:600], "broken": "unexpected outcome for a sequence of environments"})
+            continue
+        for k, (a, b) in enumerate(zip(got, fresh)):
+            if verdict(a) != verdict(b) and not (verdict(a)[3] or verdict(b)[3]):
+                chk.violation({"class": "prune-verdict", "what": "call %d of one object under env %s: %s, a fresh object: %s || %s" % (k + 1, order[k], verdict(a)[:3], verdict(b)[:3], text[:140])},
+                              {"cmd": "core", "line": seq, "program": text, "witness": corelib.bindings_sx(vals), "environments": order, "implementation": a[:400], "fresh_object": b[:400],
+                               "broken": "the %d-th satisfy_with_env call on one CompiledProgram answers differently from the same call on a fresh object: the verdict does not follow the environment passed" % (k + 1)})
+                break
     # the pruned run against the source semantics, with the observed value pinned (so that successes are frequent)
     corelib.run_matrix(chk, [g for g in acc if not g.label.startswith("env/")], dbgs=(0,), cmd="runp", pruned=True, max_assign=8 if quick else None, upstream_fixed=fixed)
     chk.extra["rule"] = ("generated programs x witness assignments, and programs whose verdict depends on the environment (check_lock_*, current_sequence, lock_time; one with an untaken branch holding an "
